@@ -5,8 +5,8 @@ LEVEL = "proof"
 RULE = ('PretextView-model edit scripts (T floor/ceil, sub-texel scaffolds present/absent, cuts on the texel grid with pieces >= 2 texels, any permutation/orientation/grouping, painted or not, forward and reverse input contigs, contigs 1..3000 bp incl. a small-geometry stream of 1..40 bp contigs) x texel sizes 1..2326.1. Non-trivial = distinct (#pieces, cuts, breaks, joins, #assemblies | error).')
 TRUSTED = ['correspondence harness props/C02.py + remap_lib.py: real BuildAssembly pipeline vs Lean `remap` on the projection `proj_rows`', 'modelled not verified: Python dict/set/sort semantics as in Model/Py.lean; object identity by object ids; PretextView edit-script model (spec side)']
 ASSUMPTIONS = ['input contigs pairwise disjoint; contig names unique (generator)']
-LEVEL_NOTE = 'mechanism theorems M1–M7 (error length, trim guards, −3·err improve guard, two-premise rule, cut exactly at the bait coordinate with outer ends kept, orientation, cut order) at full strength; end-to-end placement theorem for contig-aligned scripts in progress (Properties/C02Aligned.lean when registered); the full statement over the PretextView script model (a Python generator) is decided by correspondence on complete rows + the Placement oracle on every generated script'
-EXPLANATION = 'Placement lemmas in Lean (guard constants, orientation, trimming); full statement decided by correspondence + Placement oracle on every script.'
+LEVEL_NOTE = "mechanism theorems M1–M7 at full strength + end-to-end placement theorems for contig-aligned edit scripts (`aligned_map_rearranges`, `aligned_painted_map_rearranges`: pieces within the error length of contig boundaries, claiming disjoint contigs, any order/orientation/regrouping; output = the pieces' rows in Pretext order, reversed per piece strand, joined by the join gap, left-overs re-added); scripts cutting inside contigs: cut position/orientation/order are theorems per stage, their composition is decided by correspondence on complete rows + the Placement oracle on every generated script (the PretextView script model is a Python generator)"
+EXPLANATION = 'Placement theorems in Lean: mechanisms (guards, cut position, orientation, order) for all scripts, end-to-end rearrangement theorem for contig-aligned scripts; full statement decided by correspondence + Placement oracle on every script.'
 PROJ = R.proj_rows
 
 
